@@ -120,6 +120,7 @@ Shape(doc) ==
 \* (over an observed output; TLC checks on the model that the operational Gen / Emitted
 \* and this reading agree).  Objects and structs (properties and fields) with one key are
 \* matched one to one.
+FieldTags(s) == [m \in DOMAIN s.fields |-> s.fields[m].tag]
 FieldOK(p, f) == f.tag = p.name /\ (TypeFree(p) \/ f.type \in GoTypes(p))
 PropsAt(o, K) == {k \in DOMAIN o.props : o.props[k].key = K}
 FieldsAt(s, K) == {m \in DOMAIN s.fields : s.fields[m].key = K}
@@ -158,38 +159,51 @@ FieldVerdict(o, s) ==
             THEN "wrong_tag"
        ELSE "wrong_field_type"
 
+\* The (object, struct) pair a field-level verdict is about: the first object (document order)
+\* for which no struct of its key has the right fields, against the struct of that key that
+\* gets most of its properties right (the first of those).  <<0, 0>> if there is none.
+Score(o, s) == Cardinality({k \in DOMAIN o.props : \E m \in DOMAIN s.fields :
+                                s.fields[m].key = o.props[k].key /\ FieldOK(o.props[k], s.fields[m])})
+Diagnosed(doc, args, out) ==
+    LET bad == {i \in Live(doc, args) : /\ StructsAt(out, doc[i].key) # {}
+                                        /\ \A j \in StructsAt(out, doc[i].key) : ~FieldsMeet(doc[i], out[j])}
+    IN IF bad = {} THEN <<0, 0>>
+       ELSE LET i == CHOOSE x \in bad : \A y \in bad : x <= y
+                O == StructsAt(out, doc[i].key)
+                best == {x \in O : \A y \in O : Score(doc[i], out[y]) <= Score(doc[i], out[x])}
+                j == CHOOSE x \in best : \A y \in best : x <= y
+            IN <<i, j>>
+
 Verdict(doc, args, out) ==
     LET KS == StructKeys(doc, args, out)
         L(K) == ObjsAt(doc, args, K)
         O(K) == StructsAt(out, K)
         IgnKeys == {doc[i].key : i \in (DOMAIN doc) \ Live(doc, args)}
         over == {K \in KS : Cardinality(O(K)) > Cardinality(L(K))}
-        \* objects for which no struct of their key has the right fields
-        bad == {i \in Live(doc, args) : \A j \in O(doc[i].key) : ~FieldsMeet(doc[i], out[j])}
+        d == Diagnosed(doc, args, out)
         unmatched == {K \in KS : Cardinality(O(K)) = Cardinality(L(K)) /\
                         ~\E f \in Inj(L(K), O(K)) : \A i \in L(K) : FieldsMeet(doc[i], out[f[i]])}
     IN IF \E K \in KS : Cardinality(O(K)) < Cardinality(L(K)) THEN "missing_struct"
        ELSE IF over \cap IgnKeys # {} THEN "ignored_struct_emitted"
        ELSE IF \E K \in over : L(K) = {} THEN "extra_struct"
        ELSE IF over # {} THEN "duplicate_struct"
-       ELSE IF bad # {} THEN LET i == CHOOSE x \in bad : \A y \in bad : x <= y
-                                 j == CHOOSE x \in O(doc[i].key) : \A y \in O(doc[i].key) : x <= y
-                             IN FieldVerdict(doc[i], out[j])
+       ELSE IF d # <<0, 0>> THEN FieldVerdict(doc[d[1]], out[d[2]])
        ELSE IF unmatched # {} THEN "wrong_field_type"   \* structs of one key with their fields swapped
        ELSE "ok"
 
-\* detail of a wrong_field_type verdict: the type ID of the (first) offending property
+\* detail of a wrong_field_type verdict: the type ID of the first mistyped property of the
+\* diagnosed pair
 WrongTypeOf(doc, args, out) ==
-    LET Off(i) == {k \in DOMAIN doc[i].props :
-                    /\ ~Ignored(doc[i], args) /\ ~TypeFree(doc[i].props[k])
-                    /\ \A j \in StructsAt(out, doc[i].key) :
-                          \E m \in DOMAIN out[j].fields :
-                              /\ out[j].fields[m].key = doc[i].props[k].key
-                              /\ out[j].fields[m].tag = doc[i].props[k].name
-                              /\ out[j].fields[m].type \notin GoTypes(doc[i].props[k])
-                    /\ StructsAt(out, doc[i].key) # {}}
-        cand == UNION {{<<i, k>> : k \in Off(i)} : i \in DOMAIN doc}
-    IN IF cand = {} THEN "" ELSE LET c == CHOOSE x \in cand : TRUE IN doc[c[1]].props[c[2]].tid
+    LET d == Diagnosed(doc, args, out) IN
+    IF d = <<0, 0>> THEN ""
+    ELSE LET o == doc[d[1]]
+             s == out[d[2]]
+             off == {k \in DOMAIN o.props : /\ ~TypeFree(o.props[k])
+                                            /\ \E m \in DOMAIN s.fields :
+                                                  /\ s.fields[m].key = o.props[k].key
+                                                  /\ s.fields[m].tag = o.props[k].name
+                                                  /\ s.fields[m].type \notin GoTypes(o.props[k])}
+         IN IF off = {} THEN "" ELSE o.props[CHOOSE k \in off : \A y \in off : k <= y].tid
 
 \* the statement does not fix the spelling of struct / field names; a matched struct or field
 \* whose name is not the title-cased identifier is reported as drift, not as a violation
@@ -249,7 +263,6 @@ ObsRecord(seen, inp, obs) == IF Observed(seen, inp) THEN seen ELSE (inp :> obs) 
 \* what differs between two observations of one input (detail field of the signature); structs
 \* are told apart by name and (tag, type) of their fields, fields by their tag (names may
 \* coincide: foo / Foo)
-FieldTags(s) == [m \in DOMAIN s.fields |-> s.fields[m].tag]
 StructIds(out) == [j \in DOMAIN out |-> <<out[j].name, {<<f.tag, f.type>> : f \in Range(out[j].fields)}>>]
 StructOrderDiffers(a, b) == StructIds(a) # StructIds(b) /\ Range(StructIds(a)) = Range(StructIds(b))
 FieldOrderDiffers(a, b) ==
